@@ -114,6 +114,13 @@ class C04(Oracle):
             v.append(("C04/roundtrip-flags", f"{k}: flags differ: { {x: (d1[x], d2[x]) for x in fl if d1[x] != d2[x]} }"))
         if set(pre.flags["declared"]) != set(post.flags["declared"]) or set(pre.flags["available"]) != set(post.flags["available"]):
             v.append(("C04/roundtrip-channels", f"{k}: declared/available channels differ"))
+        else:
+            # same channels IN THE SAME ORDER (DMM channels are declared by the
+            # operation that configures them, so only the others are compared)
+            o1 = [n for n in pre.flags["declared"] if not n.startswith("dmm_")]
+            o2 = [n for n in post.flags["declared"] if not n.startswith("dmm_")]
+            if o1 != o2:
+                v.append(("C04/roundtrip-channels", f"{k}: channels are declared in another order after the round trip: {o1} -> {o2}"))
         if ctx.notes.get("device_repr") is None:
             ctx.notes["device_repr"] = repr(ctx.sut.device)
             ctx.notes["reg_key"] = _reg_key_from_world(ctx)
